@@ -28,6 +28,7 @@ import (
 
 	"github.com/EliCDavis/polyform/math/geometry"
 	"github.com/EliCDavis/polyform/math/sample"
+	"github.com/EliCDavis/polyform/math/sdf"
 	"github.com/EliCDavis/polyform/modeling"
 	"github.com/EliCDavis/polyform/modeling/marching"
 	"github.com/EliCDavis/vector/vector3"
@@ -41,19 +42,24 @@ type Shape struct {
 	Q    [3]float64 `json:"q"`    // box size / line end (units)
 	R    float64    `json:"r"`    // radius (units)
 	S    float64    `json:"s"`    // strength
+	// multiline (MultiSegmentLine: Pts, R) and vline (VarryingThicknessLine: Pts, Rs)
+	Pts [][3]float64 `json:"pts,omitempty"`
+	Rs  []float64    `json:"rs,omitempty"`
 }
 
 type Desc struct {
-	Cpu      float64   `json:"cpu"`
-	Cutoff   float64   `json:"cutoff"`
-	Mode     string    `json:"mode"` // add | combine | lattice
-	Shapes   []Shape   `json:"shapes,omitempty"`
-	Parallel bool      `json:"parallel"`     // MarchParallel
-	AddPar   bool      `json:"add_parallel"` // AddFieldParallel
-	Org      [3]int    `json:"org,omitempty"`
-	Dim      [3]int    `json:"dim,omitempty"`
-	Vals     []float64 `json:"vals,omitempty"`
-	Note     string    `json:"note,omitempty"`
+	Cpu      float64    `json:"cpu"`
+	Cutoff   float64    `json:"cutoff"`
+	Mode     string     `json:"mode"` // add | combine | subtract (shape 0 minus shape 1) | mirror (shape 0, Axis) | lattice
+	Axis     int        `json:"axis,omitempty"`
+	Shift    [3]float64 `json:"shift,omitempty"` // Field.Translate applied to every field
+	Shapes   []Shape    `json:"shapes,omitempty"`
+	Parallel bool       `json:"parallel"`     // MarchParallel
+	AddPar   bool       `json:"add_parallel"` // AddFieldParallel
+	Org      [3]int     `json:"org,omitempty"`
+	Dim      [3]int     `json:"dim,omitempty"`
+	Vals     []float64  `json:"vals,omitempty"`
+	Note     string     `json:"note,omitempty"`
 }
 
 type ipt [3]int
@@ -92,12 +98,34 @@ func buildFields(d Desc) []marching.Field {
 			fs = append(fs, marching.Sphere(v3(s.P), s.R, s.S))
 		case "box":
 			fs = append(fs, marching.Box(v3(s.P), v3(s.Q), s.S))
+		case "multiline":
+			pts := make([]vector3.Float64, len(s.Pts))
+			for i, p := range s.Pts {
+				pts[i] = v3(p)
+			}
+			fs = append(fs, marching.MultiSegmentLine(pts, s.R, s.S))
+		case "vline":
+			pts := make([]sdf.LinePoint, len(s.Pts))
+			for i, p := range s.Pts {
+				pts[i] = sdf.LinePoint{Point: v3(p), Radius: s.Rs[i]}
+			}
+			fs = append(fs, marching.VarryingThicknessLine(pts, s.S))
 		default:
 			fs = append(fs, marching.Line(v3(s.P), v3(s.Q), s.R, s.S))
 		}
 	}
-	if d.Mode == "combine" && len(fs) > 1 {
-		return []marching.Field{marching.CombineFields(fs...)}
+	switch {
+	case d.Mode == "combine" && len(fs) > 1:
+		fs = []marching.Field{marching.CombineFields(fs...)}
+	case d.Mode == "subtract" && len(fs) == 2:
+		fs = []marching.Field{marching.Subtract(fs[0], fs[1])}
+	case d.Mode == "mirror" && len(fs) == 1:
+		fs = []marching.Field{marching.MirrorAxis(fs[0], marching.Axis(d.Axis))}
+	}
+	if d.Shift != [3]float64{} {
+		for i := range fs {
+			fs[i] = fs[i].Translate(v3(d.Shift))
+		}
 	}
 	return fs
 }
@@ -331,6 +359,47 @@ func meshData(m modeling.Mesh) ([]vector3.Float64, []int) {
 	return ps, is
 }
 
+// long lists are written as first differences: (undz [d0; d1; ...]) / (undn [...]) in Check/C09.v
+func deltas(n int, at func(int) int64) []int64 {
+	out := make([]int64, n)
+	prev := int64(0)
+	for i := 0; i < n; i++ {
+		out[i] = at(i) - prev
+		prev = at(i)
+	}
+	return out
+}
+func deltaZ(xs []int64) string {
+	return "(undz " + hx.CoqListZ(deltas(len(xs), func(i int) int64 { return xs[i] })) + ")"
+}
+func deltaN(xs []int) string {
+	return "(undn " + hx.CoqListZ(deltas(len(xs), func(i int) int64 { return int64(xs[i]) })) + ")"
+}
+
+// NaN / Inf anywhere in the float attributes of the output
+func nonFinite(m modeling.Mesh) int {
+	n := 0
+	bad := func(x float64) bool { return math.IsNaN(x) || math.IsInf(x, 0) }
+	for _, atr := range m.Float3Attributes() {
+		a := m.Float3Attribute(atr)
+		for i := 0; i < a.Len(); i++ {
+			v := a.At(i)
+			if bad(v.X()) || bad(v.Y()) || bad(v.Z()) {
+				n++
+			}
+		}
+	}
+	for _, atr := range m.Float1Attributes() {
+		a := m.Float1Attribute(atr)
+		for i := 0; i < a.Len(); i++ {
+			if bad(a.At(i)) {
+				n++
+			}
+		}
+	}
+	return n
+}
+
 // independent closedness count on the index list
 func goClosed(idx []int) (dup, unmatched, degenerate int) {
 	cnt := map[[2]int]int{}
@@ -392,6 +461,9 @@ func evalCase(d Desc) outcome {
 	out.Tris = len(idx) / 3
 	out.Nontriv = out.Tris > 0
 	fails := []string{}
+	if n := nonFinite(m); n > 0 {
+		fails = append(fails, fmt.Sprintf("%d non-finite (NaN/Inf) components in the output attributes", n))
+	}
 
 	dup, unm, deg := goClosed(idx)
 	if dup+unm+deg > 0 {
@@ -408,6 +480,10 @@ func evalCase(d Desc) outcome {
 		ref, complaint := newReference(d, fs)
 		if complaint != "" {
 			fails = append(fails, complaint)
+		}
+		if msg := ref.checkDomain(); msg != "" {
+			out.Stats["domain-too-small"]++
+			fails = append(fails, "declared domain does not contain the below-cutoff region: "+msg)
 		}
 		if msg := ref.checkVertices(ps); msg != "" {
 			fails = append(fails, msg)
@@ -680,7 +756,7 @@ func evalCase(d Desc) outcome {
 	fmt.Fprintf(&sb, "CGrid (%s,%s,%s) (%s,%s,%s)\n  %s\n  %s\n  %s\n  %s\n  %s %s",
 		hx.CoqZ(int64(g.lo[0])), hx.CoqZ(int64(g.lo[1])), hx.CoqZ(int64(g.lo[2])),
 		hx.CoqZ(int64(g.hi[0])), hx.CoqZ(int64(g.hi[1])), hx.CoqZ(int64(g.hi[2])),
-		hx.CoqListZ(inside), hx.CoqListZ(ecodes), hx.CoqListN(ebuckets), hx.CoqListN(vb), hx.CoqListN(idx), hx.CoqBool(skip))
+		deltaZ(inside), deltaZ(ecodes), deltaN(ebuckets), deltaN(vb), deltaN(idx), hx.CoqBool(skip))
 	out.Coq = sb.String()
 	out.GoFail = strings.Join(fails, "; ")
 	out.Stats["grid-points"] = g.size()
@@ -888,14 +964,123 @@ func throughBlockStream(r *hx.Rng) []Desc {
 	return out
 }
 
+// Every exported field constructor / combinator of modeling/marching that follows the signed-distance convention,
+// at strength 0.5, 1, 2 and 10, thin (about one cell) and thick (three to four cells) relative to the grid, all
+// judged against the reference field.  `all` = both thicknesses for every (constructor, strength); otherwise they
+// alternate.  `smallDomains` also generates the parameter ranges for which the constructor declares a domain that
+// does not contain the shape (Sphere with strength < 1, VarryingThicknessLine with strength < radius).
+func constructorStream(r *hx.Rng, all, smallDomains bool) []Desc {
+	out := []Desc{}
+	kinds := []string{"sphere", "box", "line", "multiline", "vline", "subtract", "mirror", "translate", "combine"}
+	n := r.Intn(2)
+	for _, kind := range kinds {
+		for _, strength := range []float64{0.5, 1, 2, 10} {
+			n++
+			for thick := 0; thick < 2; thick++ {
+				if !all && n%2 != thick {
+					continue
+				}
+				cpu := hx.Pick(r, []float64{2, 3, 4, 5, 8})
+				if strength == 10 {
+					cpu = hx.Pick(r, []float64{2, 3, 4}) // Box pads its domain by `strength` world units
+				}
+				rad := (0.7 + 0.6*r.Float()) / cpu
+				if thick == 1 {
+					rad = (3 + r.Float()) / cpu
+				}
+				var c [3]float64
+				for k := 0; k < 3; k++ {
+					c[k] = float64(interiorCoord(r)) + r.Float()
+				}
+				at := func(dx, dy, dz float64) [3]float64 {
+					return [3]float64{(c[0] + dx) / cpu, (c[1] + dy) / cpu, (c[2] + dz) / cpu}
+				}
+				poly := [][3]float64{at(0, 0, 0), at(5+r.Float(), 0.3*r.Float(), 0), at(5.5, 4+r.Float(), 0.3*r.Float()), at(5.5, 4.5, 5+r.Float())}
+				d := Desc{Cpu: cpu, Mode: "add", Parallel: r.Chance(1, 4)}
+				if r.Chance(1, 3) {
+					d.Cutoff = -0.3 * strength / cpu
+				}
+				small := false
+				switch kind {
+				case "sphere":
+					d.Shapes = []Shape{{Kind: "sphere", P: at(0, 0, 0), R: rad, S: strength}}
+					small = strength < 1
+				case "box":
+					d.Shapes = []Shape{{Kind: "box", P: at(0, 0, 0), Q: [3]float64{2 * rad, 2.5 * rad, 1.6 * rad}, S: strength}}
+				case "line":
+					d.Shapes = []Shape{{Kind: "line", P: poly[0], Q: poly[2], R: rad, S: strength}}
+				case "multiline":
+					d.Shapes = []Shape{{Kind: "multiline", Pts: poly, R: rad, S: strength}}
+				case "vline":
+					d.Shapes = []Shape{{Kind: "vline", Pts: poly, Rs: []float64{rad, 0.7 * rad, 1.2 * rad, 0.8 * rad}, S: strength}}
+					small = strength < 1.2*rad*1.0001+2/cpu
+				case "subtract":
+					// marching.Subtract starts its domain from geometry.NewEmptyAABB(), which is the point (0,0,0), so
+					// the sampled box always reaches to the world origin: keep the shape close to it
+					for k := 0; k < 3; k++ {
+						c[k] = float64(r.Range(-12, 12)) + r.Float()
+					}
+					d.Mode = "subtract"
+					d.Shapes = []Shape{{Kind: "box", P: at(0, 0, 0), Q: [3]float64{2.5 * rad, 2.5 * rad, 2.5 * rad}, S: strength},
+						{Kind: "sphere", P: at(rad*cpu, rad*cpu, 0.2), R: rad, S: math.Max(strength, 1)}}
+				case "mirror":
+					d.Mode, d.Axis = "mirror", r.Intn(3)
+					// the mirror plane is a coordinate plane of the world: put the shape next to it
+					var p [3]float64
+					for k := 0; k < 3; k++ {
+						p[k] = (float64(r.Range(10, 40)) + r.Float()) / cpu
+					}
+					p[d.Axis] = rad * (0.3 + r.Float())
+					d.Shapes = []Shape{{Kind: "line", P: p, Q: [3]float64{p[0] + 3/cpu, p[1] + 2/cpu, p[2] + 1/cpu}, R: rad, S: strength}}
+				case "translate":
+					d.Shift = [3]float64{-7.25, 3.5, 11.125}
+					d.Shapes = []Shape{{Kind: "line", P: poly[0], Q: poly[1], R: rad, S: strength}}
+				case "combine":
+					d.Mode = "combine"
+					d.Shapes = []Shape{{Kind: "multiline", Pts: poly, R: rad, S: strength}, {Kind: "box", P: poly[1], Q: [3]float64{2 * rad, 2 * rad, 2 * rad}, S: strength}}
+				}
+				if small && !smallDomains {
+					continue
+				}
+				th := "thin"
+				if thick == 1 {
+					th = "thick"
+				}
+				d.Note = fmt.Sprintf("constructor %s, strength %g, %s", kind, strength, th)
+				out = append(out, d)
+			}
+		}
+	}
+	// degenerate capsules (start = end: a sphere), alone, inside a union, and as a repeated point of a polyline
+	{
+		cpu := hx.Pick(r, []float64{5, 8, 10})
+		var c [3]float64
+		for k := 0; k < 3; k++ {
+			c[k] = (float64(interiorCoord(r)) + r.Float()) / cpu
+		}
+		p := [3]float64{c[0] + 5/cpu, c[1] + 0.6/cpu, c[2] + 0.4/cpu}
+		ball := Shape{Kind: "line", P: p, Q: p, R: 3.5 / cpu, S: 1}
+		box := Shape{Kind: "box", P: c, Q: [3]float64{9 / cpu, 8 / cpu, 7 / cpu}, S: 1}
+		out = append(out,
+			Desc{Cpu: cpu, Mode: "add", Shapes: []Shape{ball}, Note: "constructor line with coinciding end points"},
+			Desc{Cpu: cpu, Mode: "combine", Shapes: []Shape{box, ball}, Note: "constructor combine: box and a line with coinciding end points"},
+			Desc{Cpu: cpu, Mode: "add", Shapes: []Shape{{Kind: "multiline", Pts: [][3]float64{c, p, p, {p[0], p[1] + 6/cpu, p[2]}}, R: 2.2 / cpu, S: 1}},
+				Note: "constructor multiline with a repeated point"})
+	}
+	return out
+}
+
 // Unions judged against the independent reference field: two or three members that overlap, are nested or are
 // disjoint, at cutoff 0, half a cell and one and a half cells below zero, through CombineFields and through one
 // AddField per member (18 cases, all well inside one block).
-func unionStream(r *hx.Rng) []Desc {
+func unionStream(r *hx.Rng, all bool) []Desc {
 	out := []Desc{}
 	for _, layout := range []string{"overlapping", "nested", "disjoint"} {
 		for ci, depth := range []float64{0, 0.5, 1.5} {
 			for _, mode := range []string{"combine", "add"} {
+				if !all && mode == "add" && ci == 1 {
+					continue
+				}
 				cpu := hx.Pick(r, []float64{4, 5, 8, 10, 12.5, 16})
 				var c [3]float64
 				for k := 0; k < 3; k++ {
@@ -1038,16 +1223,17 @@ func caseLattice(bits int, org [3]int, cpu float64, r *hx.Rng) Desc {
 // all 256 corner patterns side by side: a sheet that is 4 lattice points thick along `thin` and
 // 49 x 49 in the other two axes; pattern 16*k+j sits in the 4x4x4 sub-lattice at (3j, 3k) of the sheet
 // (neighbouring patterns share their outer layer of above-cutoff samples)
-func sheetLattice(thin int, org [3]int, cpu float64, r *hx.Rng) Desc {
+func sheetLattice(thin int, org [3]int, cpu float64, r *hx.Rng, k0 int) Desc {
 	u, w := (thin+1)%3, (thin+2)%3
-	d := Desc{Cpu: cpu, Mode: "lattice", Org: org, Note: fmt.Sprintf("all 256 cell patterns, sheet normal to axis %d", thin)}
-	d.Dim[thin], d.Dim[u], d.Dim[w] = 4, 49, 49
-	d.Vals = make([]float64, 4*49*49)
+	d := Desc{Cpu: cpu, Mode: "lattice", Org: org, Note: fmt.Sprintf("cell patterns %d..%d, sheet normal to axis %d", 16*k0, 16*k0+127, thin)}
+	d.Org[w] += 3 * k0
+	d.Dim[thin], d.Dim[u], d.Dim[w] = 4, 49, 25
+	d.Vals = make([]float64, 4*49*25)
 	for i := range d.Vals {
 		d.Vals[i] = 0.2 + r.Float()
 	}
-	for bits := 0; bits < 256; bits++ {
-		j, k := bits%16, bits/16
+	for bits := 16 * k0; bits < 16*k0+128; bits++ {
+		j, k := bits%16, bits/16-k0
 		for c := 0; c < 8; c++ {
 			if bits>>c&1 == 1 {
 				var p [3]int
@@ -1062,9 +1248,9 @@ func sheetLattice(thin int, org [3]int, cpu float64, r *hx.Rng) Desc {
 }
 
 // the single pattern (j, k) of a sheet, at the same place
-func sheetSingle(sheet Desc, thin, bits int) Desc {
+func sheetSingle(sheet Desc, thin, bits, k0 int) Desc {
 	u, w := (thin+1)%3, (thin+2)%3
-	j, k := bits%16, bits/16
+	j, k := bits%16, bits/16-k0
 	d := Desc{Cpu: sheet.Cpu, Mode: "lattice", Dim: [3]int{4, 4, 4}, Parallel: sheet.Parallel,
 		Note: fmt.Sprintf("cell pattern %d of the sheet normal to axis %d", bits, thin)}
 	d.Org = sheet.Org
@@ -1137,13 +1323,14 @@ const maxDensePoints = 6000000 // lattice points the harness samples densely
 func key(d Desc) string { b, _ := json.Marshal(d); return string(b) }
 
 type job struct {
-	kind  string
-	d     Desc
-	big   bool
-	lo    ipt
-	hi    ipt
-	o     outcome
-	sheet int // >= 0: sheet case with that thin axis
+	kind    string
+	d       Desc
+	big     bool
+	lo      ipt
+	hi      ipt
+	o       outcome
+	sheet   int // >= 0: sheet case with that thin axis
+	sheetK0 int // first pattern row of the half sheet
 }
 
 func newJob(kind string, d Desc) *job {
@@ -1217,7 +1404,11 @@ func evalAll(jobs []*job) {
 func record(run *hx.Run, j *job) {
 	d, o, lo, hi := j.d, j.o, j.lo, j.hi
 	c := hx.Case{Kind: j.kind, Desc: d, Coq: o.Coq, Nontriv: o.Nontriv, Key: key(d), GoFail: o.GoFail}
-	if o.Stats["merged-buckets"] > 0 {
+	if o.Stats["domain-too-small"] > 0 {
+		// the constructor declared a domain that does not contain the shape: hypothesis of the property not met
+		c.FailKey = "march:constructor-domain-too-small"
+		run.Count("declared-domain-smaller-than-shape")
+	} else if o.Stats["merged-buckets"] > 0 {
 		// the final weld put the crossing points of two different grid edges into one vertex
 		c.FailKey = "march:weld-precision-vs-resolution"
 		run.Count("weld-merged-distinct-crossings")
@@ -1291,13 +1482,15 @@ func main() {
 		return
 	}
 	run := hx.ParseFlags("C09", "Check.C09")
-	hires, pinch := false, false
+	hires, pinch, smallDomains := false, false, false
 	for _, a := range flag.Args() {
 		switch a {
 		case "hires":
 			hires = true
 		case "pinch":
 			pinch = true
+		case "small-domains":
+			smallDomains = true
 		}
 	}
 	jobs := []*job{}
@@ -1330,11 +1523,14 @@ func main() {
 		{2, [3]int{15, -75, 198}},
 	}
 	for i, sh := range sheets {
-		d := sheetLattice(sh.thin, sh.org, hx.Pick(r, cpus), r)
-		d.Parallel = i == 3
-		j := newJob("cell-patterns", d)
-		j.sheet = sh.thin
-		jobs = append(jobs, j)
+		cpu := hx.Pick(r, cpus)
+		for _, k0 := range []int{0, 8} {
+			d := sheetLattice(sh.thin, sh.org, cpu, r, k0)
+			d.Parallel = i == 3
+			j := newJob("cell-patterns", d)
+			j.sheet, j.sheetK0 = sh.thin, k0
+			jobs = append(jobs, j)
+		}
 	}
 	// one pattern across a block corner (eight blocks)
 	jobs = append(jobs, newJob("cell-pattern", caseLattice(0x5a, [3]int{98, -102, 198}, 8, r)))
@@ -1347,11 +1543,14 @@ func main() {
 	for _, d := range blockPlaneStream(r) {
 		jobs = append(jobs, newJob("block-plane", d))
 	}
-	for _, d := range unionStream(r) {
+	for _, d := range unionStream(r, run.Tier == "thorough") {
 		jobs = append(jobs, newJob("union", d))
 	}
+	for _, d := range constructorStream(r, run.Tier == "thorough", smallDomains) {
+		jobs = append(jobs, newJob("constructor", d))
+	}
 
-	nBig, nFinding := 2, 6
+	nBig, nFinding := 2, 4
 	if run.Tier == "thorough" {
 		nBig, nFinding = 16, 24
 	}
@@ -1383,8 +1582,10 @@ func main() {
 	for _, j := range jobs {
 		if j.sheet >= 0 && j.o.GoFail != "" {
 			singles := []*job{}
-			for bits := 1; bits < 256; bits++ {
-				singles = append(singles, newJob("cell-pattern", sheetSingle(j.d, j.sheet, bits)))
+			for bits := 16 * j.sheetK0; bits < 16*j.sheetK0+128; bits++ {
+				if bits > 0 {
+					singles = append(singles, newJob("cell-pattern", sheetSingle(j.d, j.sheet, bits, j.sheetK0)))
+				}
 			}
 			evalAll(singles)
 			n := 0
